@@ -32,7 +32,8 @@ IsNoneV(v) == v.t = "none"
 IsNum(v)   == v.t \in {"int", "float"}
 
 \* ---- text ---------------------------------------------------------------------------------------
-WS == {32, 9, 10, 13, 11, 12}                     \* what str.strip() removes (ASCII part)
+\* what Python's str.strip() removes: every character c with c.isspace()
+WS == {9, 10, 11, 12, 13, 28, 29, 30, 31, 32, 133, 160, 5760, 8232, 8233, 8239, 8287, 12288} \cup (8192..8202)
 RECURSIVE LStrip(_)
 LStrip(s) == IF s # <<>> /\ Head(s) \in WS THEN LStrip(Tail(s)) ELSE s
 RECURSIVE RStrip(_)
